@@ -11,12 +11,12 @@ Cookies  == {"none", "utf-8", "latin-1", "cp1252", "iso-8859-15", "ascii",
              "utf-8-unix", "latin-1-dos", "ISO_8859_15", "Latin_1"}
 Newlines == {"LF", "CRLF", "CR"}
 Shebangs == {"none", "plain", "with-args", "non-ascii", "second-line-only", "hash-only", "space-before",
-             "with-formfeed", "with-x85", "with-linesep", "with-cookie"}     \* (with-cookie: the #! line itself carries a PEP 263 declaration)
+             "with-formfeed", "with-x85", "with-linesep", "with-cookie", "lookalike"}     \* (lookalike: non-ASCII text whose bytes in the declared codec also read as other UTF-8 text; with-cookie: the #! line itself carries a PEP 263 declaration)
              \* characters str.splitlines() treats as line ends but the tokenizer does not
 Configs  == [form : Forms, bom : BOOLEAN, cookie : Cookies, newline : Newlines, shebang : Shebangs, preserve : BOOLEAN]
 
 \* a real shebang is a first line that starts with the two characters #!
-HasShebang(c) == c.shebang \in {"plain", "with-args", "non-ascii", "with-formfeed", "with-x85", "with-linesep", "with-cookie"}
+HasShebang(c) == c.shebang \in {"plain", "with-args", "non-ascii", "with-formfeed", "with-x85", "with-linesep", "with-cookie", "lookalike"}
 
 \* with a BOM the source does not start with #! (bytes) / starts with U+FEFF (text): left unconstrained
 Constrained(c) == ~c.bom
